@@ -253,17 +253,17 @@ def k2_witness(ctx):
 
 
 def run(ctx):
-    tagged = pools(ctx, 40 if ctx.quick else 120)
+    tagged = pools(ctx, 60 if ctx.quick else 150)
     groups = []
-    for _ in range(14 if ctx.quick else 45):
+    for _ in range(40 if ctx.quick else 80):
         groups.append(pick_group(ctx.rng, tagged, 3))
     if not ctx.quick:
-        for _ in range(12):
+        for _ in range(25):
             groups.append(pick_group(ctx.rng, tagged, 4))
     dicts = []
     for grp in groups:
         dicts += list(ordered_subsets(grp))
-    for _ in range(25 if ctx.quick else 120):
+    for _ in range(60 if ctx.quick else 300):
         dicts.append(pick_group(ctx.rng, tagged, 4))
     # every (name, game) used: the run alone, and the two solves on fresh copies
     solo_keys, base_keys = {}, {}
